@@ -71,7 +71,7 @@ class AsyncResult(g_AsyncResult):
       The AsyncResult's value will be set to the value of the first result to
       complete, or, if all fail, the exception thrown by the last to fail.
     """
-    ready_ars = [ar for ar in ars if ar.ready()]
+    ready_ars = [ar for ar in ars if ar.successful()]
     if ready_ars:
       return ready_ars[0]
 
